@@ -10,8 +10,8 @@ PROPERTIES = ["C02"]
 MANIFEST = {
     "C02": {
         "technique": "Lean 4 proof: pointer-level model of HashMap/HashSet/PoolMap (cell back-pointers, nextCell chains, prev/next list with owned end sentinel, free list, item blocks) simulated by a chain-list model, which refines an insertion-ordered association list, for every capacity, hash function and op list (induction over op lists), incl. the members called with the object itself as argument; hash functions translated from Base.hpp / String.hpp with in-bounds and equal-keys-equal-codes theorems over the translation + differential correspondence of both models vs the real headers",
-        "text": "Theorems over all operation histories (29 operations: constructors of any capacity, copy, assignment, append/prepend/positional insert, remove by key/iterator/value address, removeFront/Back, clear, swap, bulk append/remove with any overlap, a = a, a.swap(a), a.append(a), a.remove(a), value update, all queries incl. a == a), all capacities >= 1 and all hash functions (hence every collision pattern) of the Lean models: results, iteration, equality and returned iterators equal those of the association-list specification; chains partition the live items by hash % capacity; cell back-pointers designate the referring cell; an existing key keeps its position (HashMap updates the value, HashSet/PoolMap untouched); self-append changes nothing, self-remove empties. The hash functions the library provides (nine integral/pointer overloads left active by the preprocessor, hash(const String&)) are translated from the current sources: String hash reads stay within text + terminator for every length, equal strings have equal codes whatever memory they point into (owned, literal, shared, attached unterminated view), integral overloads are functions of the bit pattern. The models are tied to the current HashMap.hpp/HashSet.hpp/PoolMap.hpp on every run by executing identical op lines on the real code and on both models in lock-step (exhaustive small scope + random histories, capacities 0,1,2,3,8,500, five hash functions incl. constant, ASan/UBSan, forward/backward traversal, white-box comparison of every bucket chain, the free list and the order list as canonical item ids; a second build with nstd String keys materialised in twelve forms and the library's hash(const String&) whose key texts collide; a third build with -O2 and no sanitizers) and by an independent Python association-list reference.",
-        "note": "Trusted: Lean kernel + the three standard axioms; hand translation of the headers into the pointer-level model PtrModel.lean (validated by the correspondence run, not proved); the two translators of tools/areas/hash.py (class constants; hash function bodies: a C-expression/statement translator that refuses what it does not understand, type widths probed with the compiler) - their output is run against the real functions on every check (hashstr/hashnum/hashptr lines). Abstractions of the model: one node heap per table (swap exchanges heaps as the code exchanges `blocks`), item addresses are block*ipb+slot numbers, loops carry a fuel argument (proved sufficient: no reachable fault), container keys/values are naturals with = and the container theorems take the hash function as an arbitrary parameter (consistency of hash and == of the key type is the assumption; proved for the library's own String and integral overloads), allocation never fails, destructors/constructors of elements are no-ops (element life-cycle: property C04). usize is 64 bit and char signed on this target (probed; the theorems are re-proved for what the probe says). The value of a hash code is compared between implementation and translated model only (no independent formula). Only tested by the correspondence run: const overloads of front/back and ++/--, operator->, operator!=, Iterator(), the destructor.",
+        "text": "Theorems over all operation histories (32 operations: constructors of any capacity, copy, assignment, append/prepend/positional insert, remove by key/iterator/value address, removeFront/Back, clear, swap, bulk append/remove with any overlap, a = a, a.swap(a), a.append(a), a.remove(a), value update, all queries incl. forward and BACKWARD iteration, dereferencing at a position, == and != also of a table with itself), all capacities >= 1 and all hash functions (hence every collision pattern) of the Lean models: results, iteration, equality and returned iterators equal those of the association-list specification; chains partition the live items by hash % capacity; cell back-pointers designate the referring cell; an existing key keeps its position (HashMap updates the value, HashSet/PoolMap untouched); self-append changes nothing, self-remove empties; backward iteration over the pointer structure is the reverse of the insertion order. Client corollary: a HashSet keyed by addresses through the translated hash(const void*) with any bucket count, under the members Server calls on _closingClients, is exactly the plain list the C14 model keeps. The hash functions the library provides (nine integral/pointer overloads left active by the preprocessor, hash(const String&)) are translated from the current sources: String hash reads stay within text + terminator for every length, equal strings have equal codes whatever memory they point into (owned, literal, shared, attached unterminated view), integral overloads are functions of the bit pattern. The models are tied to the current HashMap.hpp/HashSet.hpp/PoolMap.hpp on every run by executing identical op lines on the real code and on both models in lock-step (exhaustive small scope + random histories, capacities 0,1,2,3,8,500, five hash functions incl. constant, ASan/UBSan, forward/backward traversal, white-box comparison of every bucket chain, the free list and the order list as canonical item ids; a second build with nstd String keys materialised in twelve forms and the library's hash(const String&) whose key texts collide; a third build with -O2 and no sanitizers) and by an independent Python association-list reference.",
+        "note": "Trusted: Lean kernel + the three standard axioms; hand translation of the headers into the pointer-level model PtrModel.lean (validated by the correspondence run, not proved); the two translators of tools/areas/hash.py (class constants; hash function bodies: a C-expression/statement translator that refuses what it does not understand, type widths probed with the compiler) - their output is run against the real functions on every check (hashstr/hashnum/hashptr lines). Abstractions of the model: one node heap per table (swap exchanges heaps as the code exchanges `blocks`), item addresses are block*ipb+slot numbers, loops carry a fuel argument (proved sufficient: no reachable fault), container keys/values are naturals with = and the container theorems take the hash function as an arbitrary parameter (consistency of hash and == of the key type is the assumption; proved for the library's own String and integral overloads), allocation never fails, destructors/constructors of elements are no-ops (element life-cycle: property C04). usize is 64 bit and char signed on this target (probed; the theorems are re-proved for what the probe says). The value of a hash code is compared between implementation and translated model only (no independent formula). The const overloads of front/back/++/-- are run as op lines against the model op of the non-const member (same fields read). Only tested by the correspondence run: Iterator(), iterator ==/!=, the destructor (life-cycle: C04).",
         "design_ref": "DESIGN.md 3/C02",
     }
 }
@@ -636,7 +636,7 @@ reference.eq = ref_eq
 
 # ---- generators -----------------------------------------------------------------------------------
 CAPS = [0, 1, 2, 3, 8, 500]
-MODES = [0, 1, 2, 3, 4]
+MODES = [0, 1, 2, 3, 4, 6]
 KINDS = ["map", "set", "pool"]
 
 
@@ -849,7 +849,7 @@ def histories_for(ctx):
     ctx.cov["rule"] = (f"corpus ({ncorpus}) + exhaustive: for each container (map,set,pool) x {len(EX_CONFIGS)} (capacity, capacity, hash) configurations, "
                        f"all op sequences of length <= {depth} over the container's op alphabet ({', '.join(str(len(alphabet(k))) for k in KINDS)} ops; keys 0..3, two tables) "
                        f"after a 3-insert prefix ({len(ex)} histories, complete{'; length 3 for configurations 0 and 2, length 2 for the others' if quick else ''}) + {len(smp)} uniformly drawn sequences of length 4..6 over the same alphabets + {len(rnd)} random histories of 5..80 ops over 2 tables, capacities {CAPS}, hash modes "
-                       "identity/constant/mod 2/complement/halving, key domains 3..8; self-argument members (assignSelf, swapSelf, appendSelf, removeSelf) in the alphabets and in 1% of the random ops; hashnum at the boundaries of every integral type, hashptr, hashstr of the empty / every 1-byte / random texts in twelve String forms; every op line prints size, isEmpty, iteration, find of every key, contains, front/back, "
+                       "identity/constant/mod 2/complement/halving/the library's hash(const void*) of the key number, key domains 3..8; query lines (front/back/iterate/iterBack through the mutating and the const overloads, entryAt, notEqual) after every enumerated and drawn sequence and in the random histories; self-argument members (assignSelf, swapSelf, appendSelf, removeSelf) in the alphabets and in 1% of the random ops; hashnum at the boundaries of every integral type, hashptr, hashstr of the empty / every 1-byte / random texts in twelve String forms; every op line prints size, isEmpty, iteration, find of every key, contains, front/back, "
                        "== in both directions, returned iterator position, backward traversal and white-box chain consistency flags; `wb` lines (end of every enumerated history, 12% of "
                        "the random ops) compare capacity, block count, every bucket chain, the free list and the order list as canonical item ids (4*block+slot) with the model's stored data; "
                        "distinct_nontrivial = distinct (container, op-kind set, final observation)")
